@@ -22,7 +22,11 @@ RULE = ("sections with garbage, foreign-section lines and unsupported indices in
         "non-trivial = ≥ 1 unparsable line; distinct by chart text / string")
 
 # (line, sections in which the documented format makes it parsable) — decided from the format, never by the code under test
-FOREIGN = [("  0 = B 120000", {"sync"}), ("  0 = TS 4", {"sync"}), ("  0 = A 5", {"sync"}), ("  0 = N 0 0", {"instrument"}),
+# strings that are more than one line to `str.splitlines` (form feed, vertical tab, FS / GS / RS, NEL, LS, PS): each piece is a line of
+# the file — every piece below is unparsable in every section
+SPLIT = [("junk\x0cmore junk", set()), ("  96 = E \"lyric he\u2028llo\"", set()), ("  5 = N 0\x0b 0", set()), ("  7 = S 2\x1c 5", set()), ("x\x1dy\x1ez", set()),
+         ("  9 = B 12x\x85000", set()), ("  3 = TS\u2029 4", set()), ("tail\x0c", set())]
+FOREIGN = SPLIT + [("  0 = B 120000", {"sync"}), ("  0 = TS 4", {"sync"}), ("  0 = A 5", {"sync"}), ("  0 = N 0 0", {"instrument"}),
            ("  0 = S 2 5", {"instrument"}), ("  0 = E solo", {"instrument"}), ("  0 = E \"lyric x\"", {"events"}),
            ("  0 = E \"x\"", {"events", "instrument"}), ("  Resolution = 192", set()), ("  Name = \"x\"", set()), ("garbage", set()),
            ("", set()), ("  ", set()), ("  0 = S 64 10", set()), ("  0 = N 8 0", set()), ("  0 = N 9 48", set()), ("  0 = E two words", set()),
@@ -64,8 +68,9 @@ def slice(ctx: fw.Ctx) -> fw.Outcome:
                 if sec in parsable_in:
                     continue  # parsable here by the documented format: not garbage for this section
                 b.insert(rng.randint(0, len(b)), g)
-                ins += 1
-                inserted.append(g)
+                pieces = (g + "\n").splitlines()  # a string holding one of Python's other line boundaries is several lines of the file
+                ins += len(pieces)
+                inserted += pieces
         lines = []
         for t, b in secs:
             # foreign lines between a header and its brace belong to no section: nothing is parsed from them, nothing is reported
